@@ -164,26 +164,38 @@ static GLOBAL: guard_alloc::GuardAlloc = guard_alloc::GuardAlloc;
 
 const CANARY: u8 = 0xC7;
 
-/// (address of row 0, capacity, bytes per row, rows) of a matrix whose spare rows now hold the pattern
-fn canary_set<T: MatrixElement, C: ArrayLength>(m: &DenseMatrix<T, C>) -> Option<(usize, usize, usize, usize)> {
+/// State of a destination matrix before a call: address of row 0, capacity, bytes per row, rows, and a
+/// copy of the owned rows; the spare rows now hold the pattern.
+struct Canary {
+    base: usize,
+    cap: usize,
+    rb: usize,
+    rows: usize,
+    before: Vec<u8>,
+}
+
+fn canary_set<T: MatrixElement, C: ArrayLength>(m: &DenseMatrix<T, C>) -> Option<Canary> {
     let (rows, cap) = (m.rows(), m.capacity());
-    if rows == 0 || cap <= rows {
+    if rows == 0 {
         return None;
     }
     let rb = m.stride() * std::mem::size_of::<T>();
     // (the spare rows are raw Vec capacity: no reference covers them)
     let base = m[0].as_ptr() as usize;
+    let before = unsafe { std::slice::from_raw_parts(base as *const u8, rows * rb) }.to_vec();
     unsafe { std::ptr::write_bytes((base + rows * rb) as *mut u8, CANARY, (cap - rows) * rb) };
-    Some((base, cap, rb, rows))
+    Some(Canary { base, cap, rb, rows, before })
 }
 
-/// byte offset (from row 0) of the first damaged canary byte, -1 when intact / not checkable
-fn canary_check<T: MatrixElement, C: ArrayLength>(m: &DenseMatrix<T, C>, c: Option<(usize, usize, usize, usize)>) -> i64 {
-    if let Some((base, cap, rb, rows0)) = c {
-        if m.rows() > 0 && m.capacity() == cap && m[0].as_ptr() as usize == base {
-            let from = rows0.max(m.rows()) * rb;
-            for off in from..cap * rb {
-                if unsafe { std::ptr::read_volatile((base + off) as *const u8) } != CANARY {
+/// After the call (buffer not reallocated): the rows between rows() and capacity() are not the call's to
+/// write — those that were owned before (the call shrank the matrix: `Vec::truncate` writes nothing) must
+/// hold what they held, the others the pattern.  Byte offset of the first damaged byte, or -1.
+fn canary_check<T: MatrixElement, C: ArrayLength>(m: &DenseMatrix<T, C>, c: Option<Canary>) -> i64 {
+    if let Some(c) = c {
+        if m.rows() > 0 && m.capacity() == c.cap && m[0].as_ptr() as usize == c.base {
+            for off in m.rows() * c.rb..c.cap * c.rb {
+                let want = if off < c.rows * c.rb { c.before[off] } else { CANARY };
+                if unsafe { std::ptr::read_volatile((c.base + off) as *const u8) } != want {
                     return off as i64;
                 }
             }
@@ -391,9 +403,10 @@ fn make_pssm<A: Alphabet>(rng: &mut Rng, m: usize) -> ScoringMatrix<A> {
     let mut d = DenseMatrix::<f32, A::K>::new(m);
     for i in 0..m {
         for j in 0..A::K::USIZE {
-            let v = match rng.below(12) {
+            // (-inf makes the 8-bit discretisation degenerate — all scores 0 — so keep it rare)
+            let v = match rng.below(60) {
                 0 => f32::NEG_INFINITY,
-                1 => 0.0,
+                1..=4 => 0.0,
                 _ => (rng.range(-2000, 1500) as f32) / 256.0,
             };
             d[i][j] = v;
@@ -1367,6 +1380,47 @@ fn crashme(kind: &str) {
                 black_box(&m);
             }
         }
+        "gather-oob" => {
+            // `_mm256_i32gather_ps` one element past a 2-row f32 matrix (exact allocation): gathers are target
+            // intrinsics the sanitizer does not instrument; the guard page of the plain build sees them
+            #[cfg(target_arch = "x86_64")]
+            unsafe {
+                use std::arch::x86_64::*;
+                let m = DenseMatrix::<f32, U5>::new(2).clone();
+                let p = black_box(m[0].as_ptr());
+                let idx = _mm256_set1_epi32(black_box(2 * m.stride() as i32));
+                let v = _mm256_i32gather_ps(p, idx, 4);
+                black_box(v);
+            }
+        }
+        "canary" => {
+            // the canary must notice a non-temporal store into a row the call gave up (shrink) and into
+            // a spare row, and must accept the rows a growing resize initialises
+            #[cfg(target_arch = "x86_64")]
+            unsafe {
+                use std::arch::x86_64::*;
+                let mut m = DenseMatrix::<u8, U32>::with_capacity(6, 10);
+                let st = m.stride();
+                let ones = _mm256_set1_epi8(1);
+                let c = canary_set(&m);
+                m.resize(8);
+                let grown = canary_check(&m, c);
+                let c = canary_set(&m);
+                m.resize(3);
+                _mm256_stream_si256(black_box(m[0].as_mut_ptr().add(3 * st)) as *mut __m256i, ones);
+                _mm_sfence();
+                let shrunk = canary_check(&m, c);
+                let c = canary_set(&m);
+                _mm256_stream_si256(black_box(m[0].as_mut_ptr().add(9 * st)) as *mut __m256i, ones);
+                _mm_sfence();
+                let spare = canary_check(&m, c);
+                println!("canary grown={} shrunk={} spare={}", grown, shrunk, spare);
+                if grown != -1 || shrunk != 3 * 32 || spare != 9 * 32 {
+                    std::process::exit(3);
+                }
+                return;
+            }
+        }
         "misaligned" => {
             #[cfg(target_arch = "x86_64")]
             unsafe {
@@ -1444,7 +1498,10 @@ fn main() {
             let me = std::env::current_exe().unwrap().to_string_lossy().to_string();
             let mut ok = true;
             // (binary, kind, must die, stderr must mention the sanitizer)
-            let plan: [(&str, &str, bool, bool); 11] = [
+            let plan: [(&str, &str, bool, bool); 14] = [
+                (&me, "gather-oob", true, false),
+                (&asan_bin, "canary", false, false),
+                (&me, "canary", false, false),
                 (&asan_bin, "store-oob", true, true),
                 // non-temporal stores are inline asm (not instrumented): the guard-page allocator of the
                 // plain build is what sees them
